@@ -3534,7 +3534,25 @@ archive_read_format_zip_read_data_skip_streamable(struct archive_read *a)
 		}
 		return ARCHIVE_OK;
 #endif
-	default: /* Uncompressed or unknown. */
+	case 0: /* Stored. */
+		/* Find the end the way read_data() does: it takes a
+		 * PK\007\010 signature for the data descriptor only when
+		 * the CRC that follows matches the bytes read so far, so a
+		 * signature inside the member's data (an archive stored in
+		 * an archive) does not end the entry early. */
+		for (;;) {
+			int64_t offset = 0;
+			const void *buff = NULL;
+			size_t size = 0;
+			int r;
+			r = archive_read_format_zip_read_data(a, &buff,
+			    &size, &offset);
+			if (r == ARCHIVE_EOF)
+				return (ARCHIVE_OK);
+			if (r != ARCHIVE_OK)
+				return (r);
+		}
+	default: /* Unknown compression. */
 		/* Scan for a PK\007\010 signature. */
 		for (;;) {
 			const char *p, *buff;
